@@ -301,6 +301,12 @@ fn main() {
             report(&mut sink, "server", format!("sid={} bytes ext={} bytes", sl, el), m, json!({"kind":"constructed2","sid_len":sl,"ext_len":el}));
         }
     }
+    for n in [65535u32, 65536, 65537, 100000] {
+        let ids: Vec<u16> = (0..n).map(|i| (i % 65521) as u16).collect();
+        let m = run_constructed(&pool[..32], 0x0303, None, &ids, None, &listed);
+        sink.case(fnv(13, &n.to_be_bytes()), true);
+        report(&mut sink, "constructed", format!("{} ciphers", n), m, json!({"kind":"constructed2","sid_len":0,"ext_len":0}));
+    }
     {
         let ids: Vec<u16> = (0..40000u32).map(|i| i as u16).collect();
         let m = run_constructed(&pool[..32], 0xfefd, Some(&bigpool[..33]), &ids, None, &listed);
